@@ -97,7 +97,14 @@ Measures ==
       far |-> [v \in V |-> MapThenSumSet(LAMBDA u : dist[u, v], fin[v])],
       ecc |-> [v \in V |-> Max({dist[u, v] : u \in fin[v]})],
       har |-> [v \in V |-> RSumF([u \in fin[v] \ {v} |-> R(1, dist[u, v])])],
-      res |-> [v \in V |-> RSumF([u \in fin[v] \ {v} |-> R(1, 2 ^ dist[u, v])])]])))))))
+      res |-> [v \in V |-> RSumF([u \in fin[v] \ {v} |-> R(1, 2 ^ dist[u, v])])],
+      \* The same graph with every weight HALVED (distances d/2, half-integers): the residual closeness
+      \* sum 2^-(d/2) is  a + b*sqrt(2)  with  a = sum over even d of 2^-(d/2)  and
+      \* b = sum over odd d of 2^-((d+1)/2), both exact rationals; farness halves, harmonic doubles.
+      resh |-> [v \in V |-> <<RSumF([u \in {x \in fin[v] \ {v} : dist[x, v] % 2 = 0} |-> R(1, 2 ^ (dist[u, v] \div 2))]),
+                              RSumF([u \in {x \in fin[v] \ {v} : dist[x, v] % 2 = 1} |-> R(1, 2 ^ ((dist[u, v] + 1) \div 2))])>>],
+      farh |-> [v \in V |-> R(MapThenSumSet(LAMBDA u : dist[u, v], fin[v]), 2)],
+      harh |-> [v \in V |-> RSumF([u \in fin[v] \ {v} |-> R(2, dist[u, v])])]])))))))
 
 (******************************** PageRank **********************************)
 (* Stationary vector of  x = d*M*x + ((1-d)/n)*1,  M column stochastic:       *)
@@ -270,6 +277,7 @@ Record(m, prs, ha, hh, df) ==
                bet |-> SeqOf(m.bet),
                ebet |-> {<<e[1], e[2], m.ebet[e][1], m.ebet[e][2]>> : e \in E},
                far |-> SeqOf(m.far), ecc |-> SeqOf(m.ecc), har |-> SeqOf(m.har), res |-> SeqOf(m.res),
+               resh |-> SeqOf(m.resh), farh |-> SeqOf(m.farh), harh |-> SeqOf(m.harh),
                rwlap |-> RWLap(1, 4)]
   IN IF Directed
      THEN base @@ [pr |-> {[d |-> d, r |-> SeqOf(prs[d]),
